@@ -426,7 +426,10 @@ pub fn c13(ctx: &mut Ctx) -> R {
         })?;
     }
     #[cfg(a4lg_ffuzzy_verif)]
-    c13_huge(ctx, 6)?;
+    {
+        c13_hook_selfcheck(ctx)?;
+        c13_huge(ctx, 6)?;
+    }
     // every border 192*2^n +/- 2 that can be fed for real, cheapest first, with a crafted suffix
     let mut n = 0u32;
     let mut round = 0u64;
@@ -458,6 +461,41 @@ pub fn c13(ctx: &mut Ctx) -> R {
             if n == 0 {
                 c13_huge(ctx, 40)?;
             }
+        }
+    }
+    Ok(())
+}
+
+/// The hook itself is validated against really feeding N zero bytes: for every small N and sampled larger N the two
+/// generators must be in the same state (compared through their Debug rendering, which prints every field).
+#[cfg(a4lg_ffuzzy_verif)]
+fn c13_hook_selfcheck(ctx: &mut Ctx) -> R {
+    ctx.checks.insert("zero-prefix-hook-vs-feeding");
+    let mut fed = Generator::new();
+    let mut n: u64 = 0;
+    let zeros = [0u8; 4096];
+    loop {
+        let hooked = Generator::verif_after_zero_bytes(n);
+        let a = format!("{:?}", hooked);
+        let b = format!("{:?}", fed);
+        if a != b {
+            return Err(Fail {
+                check: "zero-prefix-hook-vs-feeding",
+                details: format!("n = {} zero bytes\nhook state : {}\nreal feeding: {}", n, a, b),
+            });
+        }
+        ctx.input();
+        if n >= 2_000_000 || !ctx.alive() {
+            break;
+        }
+        if n < 600 {
+            fed.update_by_byte(0);
+            n += 1;
+        } else {
+            // sampled larger sizes: feed a pseudo-random chunk of zeros
+            let k = 1 + (ctx.rng.below(4096) as usize);
+            fed.update(&zeros[..k.min(4096)]);
+            n += k.min(4096) as u64;
         }
     }
     Ok(())
